@@ -91,6 +91,7 @@ fn replay(out: &mut Out, path: &str) {
             out.case(line.split_whitespace().nth(1).unwrap_or("r"));
             ssc = None;
             sc = core::StoreCase::new();
+            lower::replay_reset();
         } else if eng && (w == "st.var" || w == "post" || w == "fix" || w == "enum" || w == "opt") {
             if w == "st.var" {
                 core::replay_line(&mut sc, out, line);
@@ -104,6 +105,8 @@ fn replay(out: &mut Out, path: &str) {
             lp::replay_line(out, line);
         } else if w.starts_with("fl.") || w == "#flapi" {
             float::replay_line(out, line);
+        } else if w.starts_with("mal.") {
+            malformed::replay_line(out, line);
         } else if w == "#det" {
             determ::replay_line(out, line);
         } else if w.starts_with("lw.") {
